@@ -121,7 +121,8 @@ CLAIMED = {
         "(leading-zero skipping, lower case, each character decodes to its nibble, length law) for all words. Recorded "
         "h3ToString calls with buffer sizes 0..32 (canaries, fill pattern), every bit position and leading-zero length, "
         "cells/edges/vertexes/mutated/random words, the stringToH3 round trip of every produced string and 3000..30000 "
-        "arbitrary short byte strings are validated by TLC against the spec (Trace_C20.tla).",
+        "arbitrary short byte strings are validated by TLC against the spec (Trace_C20.tla); so are the calls 8 threads make at the "
+        "same time on their own buffers (20000 / 320000 words): the text of a value is independent of other callers.",
         "Trusted: TLC, driver, ndjson. Strings that start with white space / a sign or carry trailing text are "
         "unconstrained on success (the property does not speak about them).",
         "DESIGN.md 3.11, 5/C20"),
@@ -201,8 +202,11 @@ CLAIMED = {
         "sorted, reversed and shuffled order) is validated by TLC: result set is canonical for the input and equals the "
         "reference; uncompactCells reproduces S, respects the capacity (E_MEMORY_BOUNDS, sentinels, canaries) and rejects "
         "coarser targets (E_RES_MISMATCH); uncompactCellsSize = sum of closed-form child counts (BigNat).",
-        "Trusted: TLC, driver, ndjson. The implementation-shaped PlusCal model of the hash/probe algorithm "
-        "(arbitrary hash functions) is a growth item.",
+        "H3CompactAlgo.tla models one round of the hash/probe algorithm (3 parents, <= 9 cells, every hash function, order and "
+        "multiset; thorough also 4 parents: 143.9M states); its collision scenarios (parents sharing a residue modulo the round's "
+        "size, runs of slots, wrap-around at slots n-2 / n-1, pentagon parents in the chain) are realised with real cells and "
+        "replayed into compactCells (model -> code).",
+        "Trusted: TLC, driver, ndjson.",
         "DESIGN.md 3.4, 5/C06"),
     "C17": (
         "TLC: allocator contract on function-shaped control-flow models (all paths x fault plans) + TLC trace validation of every malloc/calloc/free under enumerated fault plans",
@@ -213,7 +217,9 @@ CLAIMED = {
         "i-th on); the pre-fix control flow is kept as a negative control that TLC must reject. The library is built "
         "with -DH3_ALLOC_PREFIX=verif_; for ~300 (thorough ~1500) scenarios the driver runs the fault-free call and then "
         "refuses the 1st, 2nd, ... last allocation (once / from there on); TLC validates every logged Alloc/Free/Return "
-        "against the contract (Trace_Alloc.tla).",
+        "against the contract (Trace_Alloc.tla). Error exits that are not allocation failures are covered too (bad flags / "
+        "resolution, duplicates, and an output-capacity sweep of polygonToCellsExperimental: every capacity from 0 up to the "
+        "need, fills 2 and 3 levels below the polygon's cell so that E_MEMORY_BOUNDS is taken at every iterator position).",
         "Trusted: TLC, the logging shim, FNV digests for result identity. This check found the swallowed inner-gridDisk "
         "failure in areNeighborCells / polygonToCells (fixed in /repo commit 0aae22c7, see known_findings.json).",
         "DESIGN.md 3.10, 5/C17"),
